@@ -38,7 +38,9 @@
 (*          srv, plc (host |-> /servers/h, /placement/h), sch (instance |->   *)
 (*          /scheduled/<app>), sproot (/server.presence), sp (host |-> its    *)
 (*          server presence node; empty outside the extension), iorder        *)
-(*          (instances in the order get_children lists their placements)      *)
+(*          (instances in the order get_children lists their placements),     *)
+(*          fin (instance |-> /finished/<app>), plcp (host |-> instance |->   *)
+(*          /placement/<host>/<app>)                                          *)
 (*   defects  subset of {"olderSteals"}: behaviour of the unrepaired code     *)
 (*          (see NewerKept below); {} describes the repaired behaviour.       *)
 EXTENDS Naturals, Sequences, FiniteSets, TLC
@@ -51,6 +53,8 @@ CONSTANTS Hosts,       \* sequence of hosts
           MaxExpire,   \* bound on service failures (session expiry or crash)
           MaxKill,     \* extension: bound on helper runs (kill_node / unregister_*)
           HelpKinds,   \* extension: which helpers run, subset of {"kill", "unreg"}
+          MaxPub,      \* _unschedule: bound on trace events published (trace/app/zk.py)
+          MaxSched,    \* _unschedule: bound on the scheduler's placement changes
           Ext,         \* extension: the scenario's `ext` record
           MaxPad,      \* generator only: padding steps after quiescence
           SymFirst,    \* TRUE: the first container starts on the first host (the hosts
@@ -84,6 +88,11 @@ NoLast == [s |-> 0, rk |-> "", rc |-> "", w |-> NoWrite, regc |-> "", stole |-> 
 (* (unreg), the calls still to make, whether nothing else happened since it   *)
 (* began, the node table then and what an undisturbed run removes             *)
 AdmSess == 900
+(* publication of a trace event by a host (trace/app/zk.py publish): host, instance, *)
+(* event type, calls still to make, what its exists() of the placement showed        *)
+NoPub == [ph |-> "idle", h |-> "", a |-> "", ty |-> "", todo |-> <<>>, saw |-> FALSE]
+(* the extension's set-up (server presence nodes, /scheduled, /placement) is there *)
+ExtOn(S) == DOMAIN S.ext.sp # {}
 NoAdm == [ph |-> "idle", kind |-> "", h |-> "", a |-> "", todo |-> <<>>, clean |-> TRUE,
           n0 |-> {}, k0 |-> {}, seen |-> {}]   \* seen: paths whose last get showed data naming h
 
@@ -107,6 +116,13 @@ InitSt(S) ==
    nexp    |-> 0,
    nkill   |-> 0,
    adm     |-> NoAdm,
+   sch     |-> [a \in DOMAIN S.paths |-> ExtOn(S)],  \* /scheduled/<app> exists
+   plc     |-> [a \in DOMAIN S.paths |-> {}],     \* servers the scheduler placed the instance on
+   proot   |-> ExtOn(S),                          \* /placement exists
+   fin     |-> [a \in DOMAIN S.paths |-> FALSE],  \* /finished/<app> exists
+   pub     |-> NoPub,                             \* trace event being published
+   npub    |-> 0,
+   nsch    |-> 0,
    pad     |-> 0,
    last    |-> NoLast]                            \* what the last step did (step invariants)
 
@@ -119,6 +135,7 @@ Quiescent(S, st_) ==
   /\ Submitted(st_) = ContSet(S)
   /\ st_.linger = {}
   /\ st_.adm.ph = "idle"
+  /\ st_.pub.ph = "idle"
   /\ \A h \in HostSet(S) : st_.active[h] = {} /\ st_.queue[h] = <<>> /\ st_.pc[h].ph = "idle"
 
 -----------------------------------------------------------------------------
@@ -506,7 +523,86 @@ AEndDo(st_) == [st_ EXCEPT !.adm = NoAdm, !.last = NoLast]
 Dirty(st_) == IF st_.adm.ph = "idle" THEN st_
               ELSE [st_ EXCEPT !.adm.clean = FALSE, !.adm.n0 = {}, !.adm.k0 = {}]
 
------------------------------------------------------------------------------
+-----------------------------------------------------------------------------------------------------------------------------------------------------
+(* trace/app/zk.py: publish() and _unschedule().  A host publishes the trace  *)
+(* events of its containers from a session of its own: create the event node; *)
+(* for a terminal event (finished / killed / aborted) also put                *)
+(* /finished/<app> (create, or set + set_acls), then _unschedule: exists      *)
+(* /placement/<publishing host>/<app>; only if it does: ensure_deleted        *)
+(* /scheduled/<app> (get_children, delete).  The placement is the scheduler's: *)
+(* an instance is placed on a server, withdrawn (placed nowhere until the next *)
+(* cycle), placed on another one; /placement itself may be missing.           *)
+Terminal == {"finished", "killed", "aborted"}
+EventTypes == Terminal \cup {"configured"}
+PubSess(S, h) == 950 + IndexIn(S.hosts, h)
+PlcNode(st_, h, a) == h \in st_.plc[a] \/ a \in st_.placed[h]
+
+CanPlace(S, st_, a, h) == st_.nsch < MaxSched /\ h \notin st_.plc[a]
+PlaceDo(S, st_, a, h) ==
+  [st_ EXCEPT !.plc[a] = @ \cup {h}, !.proot = TRUE, !.nsch = @ + 1, !.last = NoLast]
+CanWithdraw(S, st_, a, h) == st_.nsch < MaxSched /\ h \in st_.plc[a]
+WithdrawDo(S, st_, a, h) == [st_ EXCEPT !.plc[a] = @ \ {h}, !.nsch = @ + 1, !.last = NoLast]
+CanRmRoot(S, st_) ==
+  /\ st_.nsch < MaxSched /\ st_.proot
+  /\ \A a \in DOMAIN S.paths : st_.plc[a] = {}
+  /\ \A h \in HostSet(S) : st_.placed[h] = {}
+RmRootDo(S, st_) == [st_ EXCEPT !.proot = FALSE, !.nsch = @ + 1, !.last = NoLast]
+
+CanPub(S, st_) == st_.pub.ph = "idle" /\ st_.npub < MaxPub
+PubBeginDo(S, st_, h, a, ty) ==
+  [st_ EXCEPT !.pub = [NoPub EXCEPT !.ph = "run", !.h = h, !.a = a, !.ty = ty,
+                         !.todo = <<Item("ptrace", "")>> \o
+                                  (IF ty \in Terminal
+                                   THEN <<Item("pfin", S.ext.fin[a]), Item("pex", S.ext.plcp[h][a])>>
+                                   ELSE <<>>)],
+              !.npub = @ + 1, !.last = NoLast]
+
+InPCall(st_) == st_.pub.ph = "run" /\ st_.pub.todo # <<>>
+
+(* [op, kind, path, res, found]: kind trace | finished | placement | scheduled *)
+PCallDesc(S, st_) ==
+  LET it == Head(st_.pub.todo)
+      a == st_.pub.a
+      d(op, kind, res, found) == [op |-> op, kind |-> kind, path |-> it.p, res |-> res, found |-> found] IN
+  CASE it.t = "ptrace" -> d("create", "trace", "ok", FALSE)
+    [] it.t = "pfin"   -> d("create", "finished", IF st_.fin[a] THEN "NodeExists" ELSE "ok", FALSE)
+    [] it.t = "pfset"  -> d("set", "finished", "ok", FALSE)
+    [] it.t = "pfacl"  -> d("set_acls", "finished", "ok", FALSE)
+    [] it.t = "pex"    -> d("exists", "placement", "ok", PlcNode(st_, st_.pub.h, a))
+    [] it.t = "pkids"  -> d("get_children", "scheduled", IF st_.sch[a] THEN "ok" ELSE "NoNode", FALSE)
+    [] it.t = "pdel"   -> d("delete", "scheduled", IF st_.sch[a] THEN "ok" ELSE "NoNode", FALSE)
+
+PCallDo(S, st_) ==
+  LET pub == st_.pub
+      h == pub.h
+      a == pub.a
+      it == Head(pub.todo)
+      rest == Tail(pub.todo)
+      s0 == [st_ EXCEPT !.last = [NoLast EXCEPT !.s = PubSess(S, h), !.rk = "publish", !.rc = h]]
+      go(todo) == [s0 EXCEPT !.pub.todo = todo]
+      here == PlcNode(st_, h, a)
+      nowhere == \A h2 \in HostSet(S) : ~PlcNode(st_, h2, a) IN
+  CASE it.t = "ptrace" -> go(rest)
+    [] it.t = "pfin" ->
+         IF st_.fin[a] THEN go(<<Item("pfset", it.p), Item("pfacl", it.p)>> \o rest)
+         ELSE [go(rest) EXCEPT !.fin[a] = TRUE]
+    [] it.t \in {"pfset", "pfacl"} -> go(rest)
+    [] it.t = "pex" ->
+         [go((IF here \/ ("unschedNowhere" \in S.defects /\ nowhere)
+              THEN <<Item("pkids", S.ext.sch[a]), Item("pdel", S.ext.sch[a])>> ELSE <<>>) \o rest)
+          EXCEPT !.pub.saw = here]
+    [] it.t = "pkids" -> go(IF st_.sch[a] THEN rest ELSE Tail(rest))
+    [] it.t = "pdel" ->
+         IF ~st_.sch[a] THEN go(rest)
+         ELSE [go(rest) EXCEPT !.sch[a] = FALSE,
+                               !.last.w = [op |-> "delete", path |-> it.p, o |-> 0],
+                               !.last.guarded = pub.saw,
+                               !.last.named = here]
+
+CanPEnd(st_) == st_.pub.ph = "run" /\ st_.pub.todo = <<>>
+PEndDo(st_) == [st_ EXCEPT !.pub = NoPub, !.last = NoLast]
+
+-----
 Scn == [hosts |-> Hosts, conts |-> Conts, inst |-> InstOf, paths |-> PathsOf,
         defects |-> Defects, kidx |-> {1} \cup PerCont, ext |-> Ext,
         data |-> [h \in Range(Hosts) |-> [c \in Range(Conts) |->
@@ -531,6 +627,12 @@ KillBegin(h) == "kill" \in HelpKinds /\ CanHelp(Scn, st) /\ st' = KillBeginDo(Sc
 UnregBegin(h, a) == "unreg" \in HelpKinds /\ CanHelp(Scn, st) /\ st' = UnregBeginDo(Scn, st, h, a)
 ACall(ord) == InACall(st) /\ ord \in AFireOrders(Scn, st) /\ st' = ACallDo(Scn, st, ord)
 AEnd(x) == x = 1 /\ CanAEnd(st) /\ st' = AEndDo(st)
+Place(a, h) == CanPlace(Scn, st, a, h) /\ st' = Dirty(PlaceDo(Scn, st, a, h))
+Withdraw(a, h) == CanWithdraw(Scn, st, a, h) /\ st' = Dirty(WithdrawDo(Scn, st, a, h))
+RmRoot(x) == x = 1 /\ CanRmRoot(Scn, st) /\ st' = Dirty(RmRootDo(Scn, st))
+PubBegin(h, a, ty) == CanPub(Scn, st) /\ st' = Dirty(PubBeginDo(Scn, st, h, a, ty))
+PCall(x) == x = 1 /\ InPCall(st) /\ st' = Dirty(PCallDo(Scn, st))
+PEnd(x) == x = 1 /\ CanPEnd(st) /\ st' = Dirty(PEndDo(st))
 Pad(n) == Quiescent(Scn, st) /\ st.pad < MaxPad /\ n = st.pad + 1
           /\ st' = [st EXCEPT !.pad = n, !.last = NoLast]
 
@@ -553,6 +655,12 @@ Next ==
   \/ \E h \in Range(Hosts), a \in DOMAIN PathsOf : UnregBegin(h, a)
   \/ \E ord \in FireSeqs : ACall(ord)
   \/ \E x \in {1} : AEnd(x)
+  \/ \E a \in DOMAIN PathsOf, h \in Range(Hosts) : Place(a, h)
+  \/ \E a \in DOMAIN PathsOf, h \in Range(Hosts) : Withdraw(a, h)
+  \/ \E x \in {1} : RmRoot(x)
+  \/ \E h \in Range(Hosts), a \in DOMAIN PathsOf, ty \in EventTypes : PubBegin(h, a, ty)
+  \/ \E x \in {1} : PCall(x)
+  \/ \E x \in {1} : PEnd(x)
   \/ \E n \in 1..MaxPad : Pad(n)
 
 Spec == Init /\ [][Next]_st
@@ -642,4 +750,27 @@ ExtNamed == Helper /\ st.last.w.op = "delete" => st.last.named
 (* another host is the window above; a delete without that evidence is the     *)
 (* property's violation (trace clause C17.noForeign on helper lines).          *)
 ExtGuarded == Helper /\ st.last.w.op = "delete" => st.last.guarded
+
+-----------------------------------------------------------------------------
+(* C17.unscheduleOwner (MaxPub > 0): a host that publishes a terminal event    *)
+(* deletes /scheduled/<app> only if ITS exists() of /placement/<that host>/    *)
+(* <app> showed the node: a late event of an old container, published by a    *)
+(* host the instance has been withdrawn from (placed nowhere, placed on        *)
+(* another server, no /placement at all), leaves the instance scheduled.       *)
+(* Violated by the defect "unschedNowhere" (also un-schedule what is placed    *)
+(* nowhere).                                                                  *)
+UnscheduleOwner ==
+  st.last.rk = "publish" /\ st.last.w.op = "delete" => st.last.guarded
+
+(* observation ext.unschedule.window (expected to fail): the placement is     *)
+(* still this host's at the instant of the delete -- false when the scheduler *)
+(* withdraws it between the publisher's exists and its delete.                 *)
+UnscheduleOwnerNow ==
+  st.last.rk = "publish" /\ st.last.w.op = "delete" => st.last.named
+
+(* a publication writes its event, /finished/<app> and nothing else but that  *)
+(* delete                                                                     *)
+UnscheduleScope ==
+  st.last.rk = "publish" /\ st.last.w.op # "none" =>
+     st.last.w.op = "delete" /\ \E a \in DOMAIN PathsOf : Ext.sch[a] = st.last.w.path
 =============================================================================
